@@ -126,6 +126,12 @@ class Ctx:
         rc, o, e = self.run(["go", "build", "-tags", "verif", "-o", out, "./cmd/" + cmd], cwd=src, env={"GOARCH": goarch, "CGO_ENABLED": "0"}, timeout=900)
         if rc != 0:
             raise Machinery("harness command %s does not build for linux/%s against %s:\n%s" % (cmd, goarch, REPO, e[-3000:]))
+        # a host that cannot execute programs of that target (no 32-bit emulation in the kernel) is not a finding: the caller skips
+        try:
+            subprocess.run([out, "-h"], capture_output=True, timeout=30)
+        except OSError as ex:
+            self.note("programs built for linux/%s do not run on this host (%s): that build target is not replayed" % (goarch, ex))
+            return None
         return out
 
     def gobuild(self, pkgdir, out, tags="verif", extra=None, env=None):
